@@ -187,33 +187,35 @@ theorem parseSpaces_ok {sp : Spaces} {n : Nat} {l : List Nat} (h : parseSpaces s
       exact ⟨by simp, rfl⟩
     · split at h
       · cases h
-      · rename_i hb
-        split at h
+      · split at h
         · cases h
-        · simp only [Except.ok.injEq] at h
-          subst h
-          have hall : ∀ i ∈ li, 0 ≤ i ∧ i < n := by
-            intro i hi
-            constructor
-            · by_contra hc
-              exact hb (Or.inl (List.any_eq_true.mpr ⟨i, hi, by simpa using (by omega : i < 0)⟩))
-            · by_contra hc
-              exact hb (Or.inr (List.any_eq_true.mpr ⟨i, hi, by simpa using (by omega : i ≥ (n : Int))⟩))
-          refine ⟨?_, ?_⟩
-          · intro j hj
-            simp only [List.mem_map] at hj
-            obtain ⟨i, hi, rfl⟩ := hj
-            have := hall i hi
-            omega
-          · simp only [spInts, List.map_map]
-            symm
-            calc List.map (Int.ofNat ∘ Int.toNat) li = List.map id li := by
-                  apply List.map_congr_left
-                  intro i hi
-                  have := hall i hi
-                  simp only [Function.comp, Int.ofNat_eq_natCast, id]
-                  omega
-              _ = li := List.map_id _
+        · rename_i hb
+          split at h
+          · cases h
+          · simp only [Except.ok.injEq] at h
+            subst h
+            have hall : ∀ i ∈ li, 0 ≤ i ∧ i < n := by
+              intro i hi
+              constructor
+              · by_contra hc
+                exact hb (Or.inl (List.any_eq_true.mpr ⟨i, hi, by simpa using (by omega : i < 0)⟩))
+              · by_contra hc
+                exact hb (Or.inr (List.any_eq_true.mpr ⟨i, hi, by simpa using (by omega : i ≥ (n : Int))⟩))
+            refine ⟨?_, ?_⟩
+            · intro j hj
+              simp only [List.mem_map] at hj
+              obtain ⟨i, hi, rfl⟩ := hj
+              have := hall i hi
+              omega
+            · simp only [spInts, List.map_map]
+              symm
+              calc List.map (Int.ofNat ∘ Int.toNat) li = List.map id li := by
+                    apply List.map_congr_left
+                    intro i hi
+                    have := hall i hi
+                    simp only [Function.comp, Int.ofNat_eq_natCast, id]
+                    omega
+                _ = li := List.map_id _
 
 end Parse
 
@@ -357,7 +359,8 @@ theorem weight_val [Field K] [DecidableEq K] (f g : Fld K) (p : Int) (sp : Space
         simpa using this
 
 theorem totalVolumeLoop_scalar [Field K] (subs : List (SubDom K)) (idx : Idx)
-    (hstd : ∀ i, (subs.getD i default).tv = none) :
+    (hc : ∀ i v, (subs.getD i default).dvol = .scalar v →
+      (subs.getD i default).totalVolume = .ok (((subs.getD i default).size : K) * v)) :
     ∀ (l : List Nat) (res V : K), (∀ i ∈ l, i < subs.length) → allScalar subs l →
       totalVolumeLoop subs (l.map Int.ofNat) res = .ok V →
       V = res * ((countOf (subs.map SubDom.size) l : Nat) : K) * prodOver l (fun ind => dvolAt subs ind idx) := by
@@ -372,7 +375,7 @@ theorem totalVolumeLoop_scalar [Field K] (subs : List (SubDom K)) (idx : Idx)
     intro res V hlt hs h
     have hi : i < subs.length := hlt i (by simp)
     obtain ⟨v, hv⟩ := hs i (by simp)
-    simp only [List.map_cons, totalVolumeLoop, pyGet_ofNat subs i hi, SubDom.totalVolume, hstd i, hv] at h
+    simp only [List.map_cons, totalVolumeLoop, pyGet_ofNat subs i hi, hc i v hv] at h
     rw [ih _ _ (fun j hj => hlt j (by simp [hj])) (fun j hj => hs j (by simp [hj])) h]
     have hsz : (subs.map SubDom.size).getD i 1 = (subs.getD i default).size := by
       simp [List.getD_eq_getElem?_getD, List.getElem?_eq_getElem hi]
@@ -396,12 +399,13 @@ theorem totalVolume_eq_loop [Field K] (subs : List (SubDom K)) (sp : Spaces) :
 
 /-- total_volume over sub-domains with scalar volume elements (StructuredDomain formula): count × scalar weight -/
 theorem totalVolume_scalar [Field K] (subs : List (SubDom K)) (sp : Spaces) (l : List Nat) (V : K) (idx : Idx)
-    (hstd : ∀ i, (subs.getD i default).tv = none)
+    (hc : ∀ i v, (subs.getD i default).dvol = .scalar v →
+      (subs.getD i default).totalVolume = .ok (((subs.getD i default).size : K) * v))
     (hp : parseSpaces sp subs.length = .ok l) (hs : allScalar subs l) (h : totalVolume subs sp = .ok V) :
     V = ((countOf (subs.map SubDom.size) l : Nat) : K) * prodOver l (fun ind => dvolAt subs ind idx) := by
   obtain ⟨hlt, hints⟩ := parseSpaces_ok hp
   rw [totalVolume_eq_loop, hints] at h
-  rw [totalVolumeLoop_scalar subs idx hstd l 1 V hlt hs h, one_mul]
+  rw [totalVolumeLoop_scalar subs idx hc l 1 V hlt hs h, one_mul]
 
 end Volumes
 
@@ -506,6 +510,34 @@ def subW [Field K] (s : SubDom K) : Nat → K := fun j =>
   | .none => 1
   | .scalar w => w
   | .vector v => v.getD j 0
+
+/-- the sub-domain has volume factors and its `total_volume` is their sum.  For StructuredDomain's own formula this is
+    a theorem (`volConsistent_of_structured`); for GLSpace (`total_volume` hard-coded to `4*np.pi`) and HPSpace it is the
+    HYPOTHESIS `total_volume = Σ dvol` (trusted base; checked numerically by the harness on every generated domain). -/
+def VolConsistent [Field K] (s : SubDom K) : Prop :=
+  s.dvol ≠ .none ∧ subTV s = sumOver (List.range s.size) (subW s)
+
+theorem sumOver_range_const [Field K] (n : Nat) (w : K) : sumOver (List.range n) (fun _ => w) = (n : K) * w := by
+  induction n with
+  | zero => simp [sumOver]
+  | succ n ihn =>
+    rw [List.range_succ, sumOver_append]
+    simp only [sumOver, add_zero, ihn, Nat.cast_succ]
+    ring
+
+theorem totalVolume_of_consistent_scalar [Field K] (s : SubDom K) (v : K) (hc : VolConsistent s)
+    (hv : s.dvol = .scalar v) : s.totalVolume = .ok ((s.size : K) * v) := by
+  obtain ⟨_, he⟩ := hc
+  have hsum : sumOver (List.range s.size) (subW s) = (s.size : K) * v := by
+    have : subW s = fun _ => v := by funext j; simp [subW, hv]
+    rw [this, sumOver_range_const]
+  unfold SubDom.totalVolume
+  cases htv : s.tv with
+  | some T =>
+    simp only
+    have : subTV s = T := by simp [subTV, htv]
+    rw [← this, he, hsum]
+  | none => simp only [hv]
 
 def prodZip [Field K] : List (Nat → K) → Idx → K
   | [], _ => 1
